@@ -194,7 +194,7 @@ def gen_cases(ctx, tier):
         for _f in range(nf):
             p = []
             for _ in range(rng.randint(1, 6)):
-                opc = rng.choice([1, 1, 2, 3, 2, 3, 4, 5, 6, 7, 8, 9, 9, 9, 10, 10, 11, 12, 13, 13, 14, 14, 15, 15, 16, 17, 17, 18, 18, 18, 19, 19, 20, 20, 21, 21, 22])
+                opc = rng.choice([1, 1, 2, 3, 2, 3, 4, 5, 6, 7, 8, 9, 9, 9, 10, 10, 11, 12, 13, 13, 14, 14, 15, 15, 16, 17, 17, 18, 18, 18, 19, 19, 20, 20, 21, 21, 22, 23, 23])
                 p.append((opc, rng.randint(0, 1)))
             progs.append(p)
         length = rng.randint(50, 2500)
@@ -205,7 +205,7 @@ def gen_cases(ctx, tier):
     for _ in range(nj):
         nk = rng.choice([2, 2, 3, 3, 4])
         nf = rng.randint(1, 5)
-        progs = [[(rng.choice([10, 10, 10, 11, 1, 3, 2]), rng.randint(0, 1)) for _ in range(rng.randint(1, 6))]
+        progs = [[(rng.choice([10, 10, 10, 11, 23, 23, 1, 3, 2]), rng.randint(0, 1)) for _ in range(rng.randint(1, 6))]
                  for _f in range(nf)]
         cases.append(core.fmt_case([60000, nk], progs, core.random_sched(rng, nk, rng.randint(50, 2500), rng.randrange(3))))
     for _ in range(2 * n):
